@@ -266,10 +266,12 @@ def verify_unit(unit, tier, seed):
             for s in d.get('spans', []):
                 if s['line_start'] in casm.canary_lines:
                     hit.add(s['line_start'])
-    missing = [lbl for ln, lbl in casm.canary_lines.items() if ln not in hit]
+    hit_labels = {casm.canary_lines[ln] for ln in hit}
+    all_labels = sorted(set(casm.canary_lines.values()))
+    missing = [lbl for lbl in all_labels if lbl not in hit_labels]
     fr = fn_results(res['doc'], f'u_{unit.name}')
     r.update({'asm': asm, 'failures': failures, 'fn_results': fr, 'assumptions': listed,
-              'canary_total': len(casm.canary_lines), 'canary_failed_as_expected': len(hit), 'canary_missing': missing,
+              'canary_total': len(all_labels), 'canary_failed_as_expected': len(hit_labels), 'canary_missing': missing,
               'cmd': res['cmd'], 'wall': res['wall'] + cres['wall'], 'unstable': unstable, 'seeds': seeds_run,
               'verus_version': (res['doc'] or {}).get('verus', {}).get('version'),
               'verified': (res['doc'] or {}).get('verification-results', {}).get('verified'),
